@@ -1,0 +1,34 @@
+//! Verification hooks (compiled only with the `verif-hooks` cargo feature).
+//!
+//! Provides a thread-local override of the local clock so that a verification
+//! harness can present any "current local date and time" to the library.
+//! With the feature off this module does not exist and every clock read goes
+//! to `chrono::Local::now()` exactly as before.
+
+use std::cell::Cell;
+
+thread_local! {
+    static CLOCK: Cell<Option<chrono::NaiveDateTime>> = Cell::new(None);
+}
+
+/// Sets (or with `None` clears) the clock seen by this thread:
+/// `(year, month, day, hour, minute, second, microsecond)`.
+/// Returns `false` (and clears the override) if the fields do not form a
+/// date-time chrono can represent.
+pub fn set_clock(fields: Option<(i32, u32, u32, u32, u32, u32, u32)>) -> bool {
+    let value = match fields {
+        None => {
+            CLOCK.with(|c| c.set(None));
+            return true;
+        }
+        Some((y, m, d, h, mi, s, us)) => chrono::NaiveDate::from_ymd_opt(y, m, d)
+            .and_then(|date| date.and_hms_micro_opt(h, mi, s, us)),
+    };
+    CLOCK.with(|c| c.set(value));
+    value.is_some()
+}
+
+#[inline]
+pub(crate) fn clock_override() -> Option<chrono::NaiveDateTime> {
+    CLOCK.with(|c| c.get())
+}
